@@ -135,6 +135,9 @@ def explore_many(jobs, max_paths=20000, time_limit=600.0, timeout_ms=None, witne
     """
     exs = [Exploration(t, p) for t, p in jobs]
     t0 = time.time()
+    if stop_on_candidates is None:
+        # enough counterexamples to replay: do not exhaust a tree that is already known to violate
+        stop_on_candidates = int(os.environ.get("SYMX_STOP_CANDS", "300"))
     serial = nproc == 1 or bool(os.environ.get("SYMX_SERIAL"))
     work = [(j, []) for j in range(len(jobs))][::-1]
     submitted = [0] * len(jobs)
@@ -142,8 +145,15 @@ def explore_many(jobs, max_paths=20000, time_limit=600.0, timeout_ms=None, witne
     done_t = [None] * len(jobs)
     inflight = [0] * len(jobs)
 
+    prog = int(os.environ.get("SYMX_PROGRESS", "0"))
+    count = [0]
+
     def handle(j, r):
         ex = exs[j]
+        count[0] += 1
+        if prog and count[0] % prog == 0:
+            sys.stderr.write("[symx] %d paths done, %d queued, %.0fs, slowest query %.1fs\n" % (count[0], len(work), time.time() - t0, max(e.slowest for e in exs)))
+            sys.stderr.flush()
         ex.add(r, len(ex.witnesses) < max_witnesses and (ex.paths % witness_every == 0))
         if not stopped[j]:
             work.extend((j, alt) for alt, _ in r["alternatives"])
